@@ -30,6 +30,12 @@ CORPUS = [
      "note": "Field(A000){Connection(Buffer(0xff){1}), A001,8}: parseFieldElements takes the buffer length from the stream; the byte list extends past the table"},
     {"id": "r-sibling-detach", "hex": "5b80544f50310981000b0001",
      "note": "OperationRegion(TOP1, 9, FindSetLeftBit(Zero, ...)): attachSiblingsAsArgs detaches a sibling of the parent from the wrong object; the root keeps a stale lastArgIndex"},
+    {"id": "r-relocation-adopted-name", "hex": "082f03415f5f5f425f5f5f415f5f5f5b8205425f5f5f",
+     "note": "Name(A___.B___.A___) followed by Device(B___){}: the Name adopts the Device as its value, the path resolves through the Name itself into the adopted child; a relocation-cycle guard that only looks one level up lets the Name be re-parented under its own descendant (fatal stack overflow)"},
+    {"id": "r-relocation-adopted-opregion", "hex": "5b802f03415f5f5f425f5f5f415f5f5f005b8205425f5f5f01",
+     "note": "OperationRegion(A___.B___.A___, 0, Device(B___){}, One): same through the adopted offset argument"},
+    {"id": "r-relocation-adopted-dataregion", "hex": "5b882f03415f5f5f425f5f5f415f5f5f5b8205425f5f5f0101",
+     "note": "DataTableRegion(A___.B___.A___, Device(B___){}, One, One): same through the adopted signature argument"},
     {"id": "r-partial-method-print", "hex": "14",
      "note": "a lone Method opcode is rejected, the half-built Method object stays in the tree and PrettyPrint dereferences its missing flags argument"},
 ]
@@ -189,6 +195,17 @@ def run(ctx):
                                  timeout=1800, name="emit-plans-2")
             ctx.cov["legs"]["emit-plans-2"].update({"seeds": len(short), "cases": r2.distinct})
             case_files.append(cases2)
+    # relocation shapes over the name alphabet {A___, B___}: enumerated and encoded by TLC (AmlRobustShapes)
+    shapes = os.path.join(ctx.work, "shapes_all.ndjson")
+    r3 = ctx.model_check(d, "AmlRobustShapes", "AmlRobustShapes", workers=1, env={"CASES": shapes}, timeout=600, name="emit-shapes")
+    if q:
+        with open(shapes) as f:
+            lines = f.readlines()
+        shapes = os.path.join(ctx.work, "shapes.ndjson")
+        with open(shapes, "w") as f:
+            f.writelines(random.Random(ctx.seed).sample(lines, min(4000, len(lines))))
+    ctx.cov["legs"]["emit-shapes"].update({"cases": r3.distinct, "replayed": 4000 if q else r3.distinct})
+    case_files.append(shapes)
     # ---- leg R: pinned reproducers;  leg T: seeded random driver;  all in one harness run with leg G
     corpus = os.path.join(ctx.work, "corpus.ndjson")
     with open(corpus, "w") as f:
